@@ -211,9 +211,10 @@ def apiDeleteJob (s : Sys) (cached : JobObj) : Sys × Bool :=
 def enqueueAfter (s : Sys) (key : String) (t : Int) : Sys :=
   { s with q := s.q.addAfter key t s.clock }
 
-/-- a Pod object seen as a task (`NewPodTask`); a panic of `GetTaskRef` is not reachable for the
-pods of this engine (no DeadlineExceeded without start time) -/
-def podTask (p : PodObj) : Option Task := p.pod.task
+/-- a Pod object seen as a task (`NewPodTask`) by a pass whose `ktime.Now()` is `now` (the finish
+time recorded for a Pod that cannot tell when it finished, see `Pod.recordedFinish`); a panic of
+`GetTaskRef` is not reachable for the pods of this engine (no DeadlineExceeded without start time) -/
+def podTask (now : Time) (p : PodObj) : Option Task := p.pod.task now
 
 /-- `isControlledByJob(rj, task)`: the object's controller owner reference is of kind Job and
 carries the Job's uid (`ownerUid` is exactly that reference's uid) -/
@@ -224,7 +225,7 @@ server right now; an object that is not controlled by the Job is not the task (t
 something else took its name), checked AFTER the NotFound handling -/
 def liveGetTask (s : Sys) (jo : JobObj) (name : String) : Option Task :=
   match findPod s.pods name with
-  | some p => if !isControlledByJob jo p then none else podTask p
+  | some p => if !isControlledByJob jo p then none else podTask s.clock p
   | none => none
 
 /-- `getTaskForRef`: the cached Pod, unless it is older than what was recorded (the ref is
@@ -240,7 +241,7 @@ def getTaskForRef (s : Sys) (jo : JobObj) (ref : TaskRef) : Option Task :=
     if !isControlledByJob jo p then
       (if ref.finishTimestamp.isSome then none else liveGetTask s jo ref.name)
     else
-    match podTask p with
+    match podTask s.clock p with
     | none => none
     | some t =>
       if ref.finishTimestamp.isNone || t.ref.finishTimestamp.isSome then some t
@@ -300,21 +301,21 @@ def adoptUnrecordedTasks (s : Sys) (jo : JobObj) (tasks : List Task) : List Task
     p.jobLabel = some jo.uid && !(tasks.any (·.name = p.pod.name)) &&
     -- a task recorded in the status was already looked up; not found = gone, the cache is stale
     !(jo.job.status.tasks.any (·.name = p.pod.name)) && p.ownerUid = some jo.uid)
-  tasks ++ extra.filterMap podTask
+  tasks ++ extra.filterMap (podTask s.clock)
 
 /-- `syncCreateTask` for one index request.  Returns `none` on error. -/
 def syncCreateTask (s : Sys) (jo : JobObj) (rj : Job) (tasks : List Task) (idx : PIndex) (retry : Int) :
     Sys × Option (Job × List Task) :=
   let name := taskName jo.name idx.hash retry
   match apiCreatePod s jo idx retry with
-  | (s1, .ok p) => (s1, (podTask p).map (fun t => (rj, tasks ++ [t])))
+  | (s1, .ok p) => (s1, (podTask s.clock p).map (fun t => (rj, tasks ++ [t])))
   | (s1, .err) => (s1, none)
   | (s1, .exists) =>
     -- getTaskForAdoption: the pod CACHE; a miss is an error
     match findPod s1.podCache name with
     | none => (s1, none)
     | some p =>
-      if p.ownerUid = some jo.uid then (s1, (podTask p).map (fun t => (rj, tasks ++ [t])))
+      if p.ownerUid = some jo.uid then (s1, (podTask s.clock p).map (fun t => (rj, tasks ++ [t])))
       else (s1, some ({ rj with admissionError := true }, tasks))
 
 /-- the creation loop of `syncCreateTasks` -/
